@@ -176,6 +176,7 @@ func (file *File) Update(time int, pos int, insLength int, delLength int) {
 	}
 	iter := tree.FindLE(uint32(pos))
 	origin := *iter.Item()
+	leftOrigin := origin
 	prevOrigin := origin
 	{
 		prevIter := iter.Prev()
@@ -232,7 +233,8 @@ func (file *File) Update(time int, pos int, insLength int, delLength int) {
 
 	// prepare for the keys update
 	var previous *rbtree.Item
-	if insLength > 0 && (origin.Value != uint32(time) || origin.Key == uint32(pos)) {
+	if insLength > 0 && (origin.Value != uint32(time) || origin.Key == uint32(pos) ||
+		leftOrigin.Value != uint32(time) || leftOrigin.Key == uint32(pos)) {
 		// insert our new interval
 		if iter.Item().Value == uint32(time) && int(iter.Item().Key)-delLength == pos {
 			prev := iter.Prev()
